@@ -68,6 +68,53 @@ def run(ctx):
     ctx.validate(trp, label='select-in-batches')
     if not srv.alive():
         srv.restart()
+    # scripts that try to change the selection (a connection command): refused, or valid until the script ends — whichever way the
+    # script ends (normally, in an error raised behind the SELECT, behind a failing pcall), the scripts and commands that follow on
+    # the same and on another connection, directly, by digest and inside EXEC, act on the database selected on THEIR connection
+    import luadsl as L
+    trs = ctx.new_trace('script-select')
+    ss = Session(srv, trs)
+    nsel = 0
+    lit = lambda *a: [L.arg_lit(x if isinstance(x, bytes) else str(x).encode()) for x in a]
+    try:
+        for ending in ('normal', 'raise', 'pcall-fails', 'returns-select'):
+            for pc in (False, True):
+                for cid in list(ss.clients):
+                    ss.close(cid)
+                trs.emit({'k': 'reset'})
+                ss.note('script-select/%s/%s' % (ending, 'pcall' if pc else 'call'))
+                a, b = ss.open(), ss.open()
+                ss.cmd(a, B('FLUSHALL'))
+                ss.cmd(a, B('SET', 'str', 'text'))
+                ss.cmd(b, B('SELECT', 2))
+                prog = [L.call(lit('SELECT', 5), pcall=pc), L.call(lit('SET', 'in-script', 'x'))]
+                if ending == 'raise':
+                    prog.append(L.call(lit('INCR', 'in-script')))
+                elif ending == 'pcall-fails':
+                    prog += [L.call(lit('LPUSH', 'in-script', 'y'), pcall=True), L.call(lit('SET', 'behind', 'z'), ret=1)]
+                elif ending == 'returns-select':
+                    prog.append(L.call(lit('SELECT', 7), ret=1, pcall=pc))
+                else:
+                    prog.append(L.call(lit('DBSIZE'), ret=1))
+                formspaths.eval_prog(ss, a, prog, [], [])
+                nxt = [L.call(lit('SET', 'next', 'n')), L.call(lit('DBSIZE'), ret=1)]
+                formspaths.eval_prog(ss, a, nxt, [], [])
+                formspaths.eval_prog(ss, b, nxt, [], [], bysha=True)
+                ss.cmd(a, B('SET', 'direct', 'd'))
+                ss.cmd(a, B('MULTI'))
+                formspaths.eval_prog(ss, a, [L.call(lit('RPUSH', 'queued', 'q'), ret=1)], [], [])
+                ss.cmd(a, B('EXEC'))
+                for d in (0, 2, 5, 7):
+                    ss.cmd(a, B('SELECT', d))
+                    workloads.dump_db(ss, a)
+                nsel += 1
+    except ServerDied:
+        trs.emit({'k': 'crash', 'status': srv.exit_status()})
+    ss.close_all()
+    ctx.validate_segments(trs, 'script-select')
+    ctx.extra_cov['script_select_stories'] = nsel
+    if not srv.alive():
+        srv.restart()
     # the forms catalogue in a non-zero database while another database holds the same key names, through every path
     tr = ctx.new_trace('forms')
     s = Session(srv, tr)
